@@ -119,6 +119,23 @@ def prop(spec, rec):
         got_us = int((dts[k] - np.datetime64(base)) / np.timedelta64(1, "us"))
         require(abs(got_us - k * per_us) <= 1000, "datetimes_spacing", lambda: "entry %d is %r = start + %d us, expected start + %d x %r min = %s us" % (k, dts[k], got_us, k, spec["period"], k * per_us))
 
+    if spec.get("tz"):
+        # a second completed simulation that started at the same instant, written in another zone
+        # (same period, same number of periods): its own wall clock counts
+        import copy
+
+        other = 5.5 if spec["tz"] != 5.5 else -8
+        sim2 = copy.copy(sim)
+        sim2.start = sim.start.astimezone(timezone(timedelta(hours=other)))
+        with warnings.catch_warnings():
+            warnings.simplefilter("ignore")
+            dts2 = acnsim.datetimes_array(sim2)
+        base2 = sim2.start.replace(tzinfo=None)
+        require(len(dts2) == len(dts), "datetimes_length", "second simulation: length differs")
+        for k in range(len(dts2)):
+            got_us = int((dts2[k] - np.datetime64(base2)) / np.timedelta64(1, "us"))
+            require(abs(got_us - k * per_us) <= 1000, "datetimes_same_instant_other_zone", lambda: "a simulation started at %s (the same instant as %s): entry %d is %r" % (sim2.start, sim.start, k, dts2[k]))
+        labels.add("same_instant_other_zone")
     if R.any():
         labels.add("nonzero_rates")
     if spec.get("tz"):
@@ -159,7 +176,7 @@ def subchecks(tier):
             prop,
             quick=300,
             thorough=20000,
-            floors={"requested_not_in_network_order": 0.1, "mixed_voltage": 0.3, "nonzero_rates": 0.4, "unbalance_checked": 0.05, "fractional_period": 0.04, "single_phase_mixed_sign_constraint": 0.015},
+            floors={"requested_not_in_network_order": 0.1, "mixed_voltage": 0.3, "nonzero_rates": 0.4, "unbalance_checked": 0.05, "fractional_period": 0.04, "single_phase_mixed_sign_constraint": 0.015, "same_instant_other_zone": 0.2},
         )
     ]
 
